@@ -86,10 +86,14 @@ func (s *Service) create(ctx context.Context, tx gorp.Tx, _channels *[]Channel, 
 		}
 	}
 
-	// Auto-create index channels for calculated channels (only for new calculated channels)
+	// Auto-create index channels for calculated channels (only for new calculated
+	// channels). Calculated channels are free channels, which only the bootstrapper
+	// creates: any other node forwards them there, and the forwarded request runs through
+	// this function again. The index is derived on the bootstrapper only so that a request
+	// issued on another node does not end up with two of them.
 	indexChannels := make([]Channel, 0, len(channels))
 	for _, ch := range channels {
-		if ch.IsCalculated() && ch.LocalKey == 0 {
+		if ch.IsCalculated() && ch.LocalKey == 0 && s.cfg.HostResolver.HostKey().IsBootstrapper() {
 			indexCh := Channel{
 				Name:        ch.Name + calculatedIndexNameSuffix,
 				DataType:    telem.TimeStampT,
